@@ -76,6 +76,25 @@ def tlc_edges(ctx, module, cfg_text, label, timeout=900):
     return edges, r
 
 
+def tlc_edges_many(ctx, module, cfgs, timeout=1500):
+    """cfgs: list of (label, cfg_text).  Runs the edge dumps concurrently (one TLC worker each); returns list of (edges, result)."""
+    import concurrent.futures
+    with concurrent.futures.ThreadPoolExecutor(max_workers=min(3, max(1, len(cfgs)))) as ex:
+        return list(ex.map(lambda c: tlc_edges(ctx, module, c[1], c[0], timeout=timeout), cfgs))
+
+
+def validate_both(ctx, p_spec, i_spec, lines, label, chunk=3000):
+    """P-layer and I-layer trace validation side by side.  p_spec/i_spec = (module, cfg).
+    Returns (rejP, reachedP, rejI)."""
+    import concurrent.futures
+    with concurrent.futures.ThreadPoolExecutor(max_workers=2) as ex:
+        fp = ex.submit(validate, ctx, p_spec[0], p_spec[1], lines, label + '-P', chunk, True)
+        fi = ex.submit(validate, ctx, i_spec[0], i_spec[1], lines, label + '-I', chunk, False)
+        rejP, reached = fp.result()
+        rejI, _ = fi.result()
+    return rejP, reached, rejI
+
+
 def key(o):
     return json.dumps(o, sort_keys=True, separators=(',', ':'))
 
